@@ -371,6 +371,11 @@ package ssh
 // c.buf is an array of its own (newChaCha20Cipher and this function allocate it with make)
 //@ requires cap(c.buf) >= 4 && ref(c.buf) >= 0
 //@ modifies heap
+//@ modifies ghost(c.buf, vcnt)
+//@ modifies ghost(c.buf, vok)
+//@ modifies ghost(c.buf, voff)
+//@ modifies ghost(c.buf, vlen)
+//@ modifies ghost(c.buf, vtag)
 //@ ensures implies(result1 == nil, 1 <= len(result0) && len(result0) <= 262139)
 //@ ensures implies(result1 != nil, result0 == nil)
 //@ canary ensures result1 != nil
